@@ -610,6 +610,18 @@ func (g *lcGen) genUpdate(r *rand.Rand, c *beacon.ConsensusLightClient, honesty 
 	signer := g.commByRoot(g.rootOf(expected))
 	if signer == nil || !honest() {
 		signer = g.comms[r.Intn(len(g.comms))]
+		// often the store's OTHER committee: a genuine signature of the committee of the wrong period
+		if r.Intn(2) == 0 {
+			other := st.NextSyncCommittee
+			if expected == st.NextSyncCommittee {
+				other = st.CurrentSyncCommittee
+			}
+			if other != nil {
+				if o2 := g.commByRoot(g.rootOf(other)); o2 != nil {
+					signer = o2
+				}
+			}
+		}
 	}
 	u.signed = lcSigningRoot(lcHdrRoot(&u.att), u.fv, h32(u.gvr))
 	u.sig = signer.sign(u.bits, u.signed)
